@@ -250,6 +250,13 @@ def run(P: Program, rep: Report):
                 pass
             before = snapshot(lib)
             in_ids = mutable_ids(lib)
+            n_eff = len(it.effects)
+
+            def touched():
+                """Writes to objects of the input while the middleware ran (also those a later write undoes: a list reversed twice)."""
+                kinds = {"del-item", "store-item", "extend", "clear", "store-attr", "pop", "insert", "dict-update", "dict-pop", "store-slice", "sort",
+                         "sort-abstract", "set-update", "set-add", "reorder", "remove", "append"}
+                return [f"{e[0]} on input{in_ids[id(e[1])]}" for e in it.effects[n_eff:] if e[0] in kinds and len(e) > 1 and id(e[1]) in in_ids]
             try:
                 out = call(it, mw, "transform", lib)
             except Raised as r:
@@ -271,7 +278,7 @@ def run(P: Program, rep: Report):
                     second = (diff_snapshots(before2, snapshot(out)), [])
                 except (Unsupported, LoopBound) as u:
                     return ("unsupported", "second application: " + str(u), None, None, None, None)
-            return ("return", out, lib, before, in_ids, (flag, second))
+            return ("return", out, lib, before, (in_ids, touched()), (flag, second))
 
         res = explore(run1, 4000)
         res = res + explore(lambda c: run1(c, uncopyable=True), 4000)
@@ -304,7 +311,8 @@ def run(P: Program, rep: Report):
                     seen_fail.add(("mut", label))
                     rep.fail("C07.R1", f"input-mutated:{label}", common.raise_site(P, out) or mcls.loc, f"{clsname}.transform mutates its input ({d}) before raising")
                 continue
-            d = diff_snapshots(before, snapshot(lib))
+            in_ids, written = in_ids
+            d = diff_snapshots(before, snapshot(lib)) or (f"{written[0]} ({len(written)} writes to objects of the input during the run)" if written else None)
             if d and ("mut", label) not in seen_fail:
                 seen_fail.add(("mut", label))
                 rep.fail("C07.R1", f"input-mutated:{label}", mcls.loc,
